@@ -38,7 +38,8 @@ def chain_mesh(nd, nlev):
 
 
 FIELDSETS = [["temp"], ["a", "b", "a", "a_2"], ["density", "density", "density"], ["Y(H2)", "Y(O2)", "temp", "Z", "Zvar"],
-             ["x", "grid_level", "all"]]
+             ["x", "grid_level", "all"], ["\u03c9_z", "\u0394\u03c1", "Y(H\u2082O)", "mass fraction", "T", "t"],
+             ["q%03d" % i for i in range(120)]]
 
 
 def cases(tier, seed):
